@@ -501,3 +501,15 @@ def lstrip_noop(d, ch):
 
 def call_kwarg_names(name):
     raise NotImplementedError("call_kwarg_names() is a symbolic-only builtin")
+
+
+def comp_filter_element():
+    raise NotImplementedError("comp_filter_element() is a symbolic-only builtin")
+
+
+def comp_filter_condition():
+    raise NotImplementedError("comp_filter_condition() is a symbolic-only builtin")
+
+
+def comp_filter_count():
+    raise NotImplementedError("comp_filter_count() is a symbolic-only builtin")
